@@ -95,6 +95,25 @@ def run(ctx, prog):
                 k += 1
     ctx.floor('C09.R1', 'next_wal_seq.fetch_add sites', n_fa, 5, '5 by hand (insert ×2, delete, update_metadata, batch_delete)')
 
+    # the pre-flight is inside the critical section too: every acquisition of doc_store in a mutator — also the shared one that maps ids to slots and
+    # decides what gets logged — happens with the snapshot lock (shared) and the write gate held; read before them, the decision can be overtaken
+    # by an overwrite or by tombstone compaction (which renumbers slots) and the logged entry no longer matches what is applied
+    n_pre = 0
+    for name in MUTATORS:
+        f = ctx.body('C09.R1', name)
+        if f is None:
+            continue
+        for b in prog.family(f):
+            for bb, a in sorted(lm.body_acqs.get(b.id, {}).items()):
+                if a.cls != 'HnswBackend.doc_store':
+                    continue
+                n_pre += 1
+                h = held(b, bb)
+                k_ = sum(1 for x in ctx.instances if x['rule'] == 'C09.R1' and x['key'].startswith('C09.R1 | %s | doc_store.%s' % (f.short, 'read' if a.mode == 'R' else 'write')))
+                ctx.inst('C09.R1', f.short, 'doc_store.%s #%d inside the snapshot-lock / write-gate section' % ('read' if a.mode == 'R' else 'write', k_),
+                         SNAP in h and 'HnswBackend.write_gate' in h, 'acquired at %s with %s held' % (a.call.loc, sorted(k2.split('.')[-1] for k2 in h)))
+    ctx.floor('C09.R1', 'doc_store acquisitions in the mutators', n_pre, 8, '2 per mutator on the pinned tree')
+
     # ------------------------------------------------------------------ R2
     ctx.rule('C09.R2', 'create_snapshot reads next_wal_seq and copies the store while holding the snapshot lock exclusively: '
                        'the load and every point where the doc_store read guard is live lie inside the exclusive guard\'s live range')
